@@ -105,6 +105,11 @@ func (w *World) teardown(rec *Record) {
 	}
 	// the stores' GC loops look at their context only once per tick
 	simrt.SleepFor(6 * time.Minute)
+	for _, t := range simrt.S.Tasks {
+		if t.Panic != "" {
+			w.violate("C15", "panic", "background-task:"+t.Origin, -1, "task %s panicked: %s", t.Name, t.Panic)
+		}
+	}
 	for _, t := range simrt.Unfinished() {
 		rec.Leaks = append(rec.Leaks, fmt.Sprintf("%s (created at %s) waiting: %s", t.Name, t.Origin, t.Waiting))
 	}
